@@ -110,6 +110,22 @@ fn main() {
                         }
                     }
                 }
+                // runs of gaps in the argument (whole machine words of '-', aligned to the argument's start or
+                // not), with or without an offender before / after the run
+                if r % 6 == 5 && n >= 17 {
+                    let start = if ctx.rng.chance(2, 3) { 16 * ctx.rng.below(n / 16) } else { ctx.rng.below(n - 16) };
+                    let len = 16 + if ctx.rng.chance(1, 3) { ctx.rng.below(8) } else { 0 };
+                    for c in y.iter_mut().skip(start).take(len) {
+                        *c = 0;
+                    }
+                    if ctx.rng.chance(2, 3) {
+                        let pos = if ctx.rng.chance(1, 2) && start + len < n { start + len + ctx.rng.below(n - start - len) } else { ctx.rng.below(n) };
+                        let stray = 1u8 << ctx.rng.below(4);
+                        if x[pos] & stray == 0 {
+                            y[pos] |= stray;
+                        }
+                    }
+                }
                 let (p1, p2) = (ctx.rng.below(16), ctx.rng.below(16));
                 ops(ctx, &x, &y, p1, p2, "random");
                 cell!(ctx, "iupac/random/{}", len_class(4, n));
@@ -193,6 +209,6 @@ fn main() {
                 check!(ctx, codes_of::<Iupac>(&p.slice().to_comp()) == want, "SeqSlice::to_comp|iupac|not-memberwise".to_string(), "to_comp of {:?} wrong", a.text(&x));
             }
         });
-        ctx.note("rule", json!("all 256 ordered IUPAC symbol pairs, 20 per window, with the two operands at independent bit offsets (all 16 x 16 offset combinations): &a|&b, &a&&b in both operand orders, bit_or/bit_and on owned copies, owned|slice, operands unchanged, contains on slice and owned receivers; random equal-length pairs up to 8 words (every 12th: 4..33 words) whose argument is a subset of the pattern everywhere, or everywhere except at 1-4 offending positions (spaced by whole machine words or randomly, with equal or different stray nucleotides), or random; contains with every kind of length mismatch incl. all-N and empty patterns; SeqArray<N,W> receivers built from the packed model; Iupac::from(Dna) and member-wise complement for every code. Distinct = (x, y, pad1, pad2)."));
+        ctx.note("rule", json!("all 256 ordered IUPAC symbol pairs, 20 per window, with the two operands at independent bit offsets (all 16 x 16 offset combinations): &a|&b, &a&&b in both operand orders, bit_or/bit_and on owned copies, owned|slice, operands unchanged, contains on slice and owned receivers; random equal-length pairs up to 8 words (every 12th: 4..33 words) whose argument is a subset of the pattern everywhere, or everywhere except at 1-4 offending positions, or with whole-word runs of gaps followed or preceded by an offender, (spaced by whole machine words or randomly, with equal or different stray nucleotides), or random; contains with every kind of length mismatch incl. all-N and empty patterns; SeqArray<N,W> receivers built from the packed model; Iupac::from(Dna) and member-wise complement for every code. Distinct = (x, y, pad1, pad2)."));
     });
 }
